@@ -141,6 +141,9 @@ func edgeInt64s() []int64 {
 	return out
 }
 
+// setterPres is the list of receiver pre-states used by the setter layers (C10 widens it to all of them).
+var setterPres = []int{preFresh, preLonger}
+
 func setterLayers(j judge, tier string) []Layer {
 	thorough := tier == "thorough"
 	var layers []Layer
@@ -160,7 +163,7 @@ func setterLayers(j judge, tier string) []Layer {
 				ex := valOfInt(v)
 				for _, p := range setterPrecs {
 					for _, m := range M6 {
-						for _, pre := range []int{preFresh, preLonger} {
+						for _, pre := range setterPres {
 							if c.Skip() {
 								continue
 							}
@@ -192,10 +195,15 @@ func setterLayers(j judge, tier string) []Layer {
 				v := i64[u]
 				for _, p := range setterPrecs {
 					for _, m := range M6 {
-						if !c.Skip() {
-							z := buildPre(preFresh, p, m)
+						for _, pre := range setterPres {
+							if c.Skip() {
+								continue
+							}
+							z := buildPre(pre, p, m)
 							pv, _ := protect(func() { z.SetInt64(v) })
-							judgeSetter(c, j, func() string { return fmt.Sprintf("SetInt64(%d) prec=%d mode=%s", v, p, modeName(m)) }, z, pv, valOfInt(big.NewInt(v)), intPrec(p, nil2(v), true), m)
+							judgeSetter(c, j, func() string {
+								return fmt.Sprintf("SetInt64(%d) prec=%d mode=%s pre=%s", v, p, modeName(m), preNames[pre])
+							}, z, pv, valOfInt(big.NewInt(v)), intPrec(p, nil2(v), true), m)
 						}
 						for _, uv := range []uint64{uint64(v), uint64(v) ^ (1 << 63), math.MaxUint64 - uint64(u), 10000000000000000000 + uint64(u) - 40} {
 							if c.Skip() {
@@ -263,10 +271,13 @@ func setterLayers(j judge, tier string) []Layer {
 							if c.Skip() {
 								continue
 							}
-							z := buildPre(preFresh, p, m)
+							pre := setterPres[(int(p)+int(m))%len(setterPres)]
+							z := buildPre(pre, p, m)
 							arg := new(big.Rat).Set(q)
 							pv, _ := protect(func() { z.SetRat(arg) })
-							key := func() string { return fmt.Sprintf("SetRat(%s) prec=%d mode=%s", q, p, modeName(m)) }
+							key := func() string {
+								return fmt.Sprintf("SetRat(%s) prec=%d mode=%s pre=%s", q, p, modeName(m), preNames[pre])
+							}
 							if pv != nil {
 								c.Fail(key(), fmt.Sprintf("panic: %v", pv))
 								continue
@@ -664,6 +675,36 @@ func getterLayers(tier string) []Layer {
 						continue
 					}
 					getterCase(c, xs[i])
+				}
+			},
+		})
+	}
+	// G3: long mantissas (binary <-> decimal conversion loops of Int, Rat)
+	{
+		var lens []int
+		for n := 1; n <= 80; n++ {
+			lens = append(lens, n)
+		}
+		lens = append(lens, 100, 143, 144, 145, 150, 217)
+		layers = append(layers, Layer{
+			Name:   "G3-long-mantissas",
+			Units:  len(lens),
+			Bounds: "Int, Int64, Uint64, Rat, IsInt, MinPrec on n-word mantissas for every n in 1..80 ∪ {100,143,144,145,150,217} (uniform words B−1 / 7·10^18+… / 1 with a top-word exception) as integers (exponent = 19n, 19n±1, 19n+40) and with a fractional tail",
+			Run: func(c *Ctx, u int) {
+				n := lens[u]
+				for _, w := range []uint64{BW - 1, 7777777777777777777, 1} {
+					for _, top := range []uint64{w, BW - 1, 8 * (BW / 10), BW / 10} {
+						v := make([]uint64, n)
+						for i := range v {
+							v[i] = w
+						}
+						v[n-1] = top
+						for _, e := range []int64{int64(19 * n), int64(19*n) - 1, int64(19*n) + 1, int64(19*n) + 40, int64(19*n) - 19, 5} {
+							for _, neg := range []bool{false, true} {
+								getterCase(c, mkWords(neg, v, e, 0, 0))
+							}
+						}
+					}
 				}
 			},
 		})
